@@ -288,10 +288,6 @@ func (fs *memFS) OpenFile(ctx context.Context, name string, flag int, perm os.Fi
 
 	} else {
 		n = dir.children[frag]
-		if flag&(os.O_SYNC|os.O_APPEND) != 0 {
-			// memFile doesn't support these flags yet.
-			return nil, os.ErrInvalid
-		}
 		if flag&os.O_CREATE != 0 {
 			if flag&os.O_EXCL != 0 && n != nil {
 				return nil, os.ErrExist
@@ -608,6 +604,10 @@ func (f *memFile) Write(p []byte) (int, error) {
 		// Like a zero-length write(2), which does not extend the file even
 		// if the offset is past its end.
 		return 0, nil
+	}
+	if f.flag&os.O_APPEND != 0 {
+		// O_SYNC needs nothing: every Write is immediately visible.
+		f.pos = len(f.n.data)
 	}
 	if f.pos < len(f.n.data) {
 		n := copy(f.n.data[f.pos:], p)
